@@ -384,9 +384,13 @@ class HydrodynamicsTemplateModel:
             return float((xi * (xi - v) / (1 - xi * v) - self.cs2) * v)
 
         event.terminal = shockWave
+        # The rarefaction wave is sampled densely: xi(v) has a square-root behaviour
+        # where a hybrid's rarefaction wave starts, and the efficiency factor is later
+        # computed with Simpson's rule on the returned points.
         sol = solve_ivp(
             self._dxiAndWdv, (v0, 1e-10), [vw, wp],
-            events=event, rtol=self.rtol/10, atol=0, args=(shockWave,)
+            events=event, rtol=self.rtol/10, atol=0, args=(shockWave,),
+            t_eval=None if shockWave else np.linspace(v0, 1e-10, 1001),
         )
         return sol
 
